@@ -145,13 +145,13 @@ theorem truncated_in_data_silent (c : Codec) (ms : List Member) (m : Member) (j 
 /-- **a stream that ends right after a GNU long-name record fails** (here the code is right: `_proc_gnulong` turns the missing
     header into `SubsequentHeaderError`, which `next()` re-raises as `ReadError` at any offset) -/
 theorem truncated_after_longname_fails (c : Codec) (ms : List Member) (name : List Byte) (p : Nat → Nat → Nat)
-    (hv : ∀ x ∈ ms, MValid c x) (hl : 100 < name.length) (hvl : c.validLong (name.length + 1)) :
+    (hv : ∀ x ∈ ms, MValid c x) (hl : 100 < name.length) (hgnu : c.pax = false) (hvl : c.validLong (name.length + 1)) :
     readArchive c.dec { data := writeMembers c ms ++ longRecord c name, policy := p } = .error := by
   unfold readArchive
   have hge := writeMembers_length_ge c ms
   have hnot : ¬ name.length ≤ 100 := by omega
   have hlr : longRecord c name = c.encLong (name.length + 1) ++ (name ++ [0] ++ zeros (padLen (name.length + 1))) := by
-    simp [longRecord, hnot]
+    simp [longRecord, hnot, hgnu]
   have hnbl : (name ++ [0] ++ zeros (padLen (name.length + 1))).length = blockLen (name.length + 1) := by
     simp only [List.length_append, zeros_length, List.length_cons, List.length_nil, blockLen]
   have hlen : (writeMembers c ms ++ longRecord c name).length = (writeMembers c ms).length + 512 + blockLen (name.length + 1) := by
@@ -173,6 +173,38 @@ theorem truncated_after_longname_fails (c : Codec) (ms : List Member) (name : Li
   have dn : (name ++ [0] ++ zeros (padLen (name.length + 1))).drop (blockLen (name.length + 1)) = [] :=
     List.drop_eq_nil_of_le (by rw [hnbl]; exact Nat.le_refl _)
   simp only [readMembers, hs, read_mk, t0, d0, classify_encLong c _ hvl, dn, List.take_nil]
+  simp [classify]
+
+/-- the same for a pax extended header: a stream that ends right after the records block fails -/
+theorem truncated_after_pax_header_fails (c : Codec) (ms : List Member) (name : List Byte) (p : Nat → Nat → Nat)
+    (hv : ∀ x ∈ ms, MValid c x) (hl : 100 < name.length) (hpax : c.pax = true) (hvp : c.validPax (paxPayload c name).length) :
+    readArchive c.dec { data := writeMembers c ms ++ longRecord c name, policy := p } = .error := by
+  unfold readArchive
+  have hge := writeMembers_length_ge c ms
+  have hnot : ¬ name.length ≤ 100 := by omega
+  have hlr : longRecord c name = c.encPax (paxPayload c name).length ++ (paxPayload c name ++ zeros (padLen (paxPayload c name).length)) := by
+    simp [longRecord, hnot, hpax]
+  have hnbl : (paxPayload c name ++ zeros (padLen (paxPayload c name).length)).length = blockLen (paxPayload c name).length := by
+    simp only [List.length_append, zeros_length, blockLen]
+  have hlen : (writeMembers c ms ++ longRecord c name).length = (writeMembers c ms).length + 512 + blockLen (paxPayload c name).length := by
+    rw [List.length_append, hlr, List.length_append, c.encPax_len, hnbl]; omega
+  have hle : ms.length + 1 ≤ (writeMembers c ms ++ longRecord c name).length / 512 := by
+    rw [Nat.le_div_iff_mul_le (by decide), hlen]; omega
+  obtain ⟨k, hk⟩ : ∃ k, (writeMembers c ms ++ longRecord c name).length / 512 + 1 = ms.length + (k + 1) :=
+    ⟨(writeMembers c ms ++ longRecord c name).length / 512 + 1 - ms.length - 1, by omega⟩
+  show readMembers c.dec _ (mkReader _ p 0) 0 [] = _
+  rw [hk, readMembers_peel c p _ (longRecord c name) ms 0 [] hv, hlr]
+  simp only [Nat.zero_add, List.nil_append]
+  have hs := seek_mk (c.encPax (paxPayload c name).length ++ (paxPayload c name ++ zeros (padLen (paxPayload c name).length))) p
+    (writeMembers c ms).length (writeMembers c ms).length (Nat.le_refl _)
+  simp only [Nat.sub_self, List.drop_zero] at hs
+  have t0 : (c.encPax (paxPayload c name).length ++ (paxPayload c name ++ zeros (padLen (paxPayload c name).length))).take 512
+      = c.encPax (paxPayload c name).length := List.take_left' (c.encPax_len _)
+  have d0 : (c.encPax (paxPayload c name).length ++ (paxPayload c name ++ zeros (padLen (paxPayload c name).length))).drop 512
+      = paxPayload c name ++ zeros (padLen (paxPayload c name).length) := List.drop_left' (c.encPax_len _)
+  have dn : (paxPayload c name ++ zeros (padLen (paxPayload c name).length)).drop (blockLen (paxPayload c name).length) = [] :=
+    List.drop_eq_nil_of_le (by rw [hnbl]; exact Nat.le_refl _)
+  simp only [readMembers, hs, read_mk, t0, d0, classify_encPax c _ hvp, dn, List.take_nil]
   simp [classify]
 
 /-- the full-strength statement "every proper prefix of an archive makes the read fail" is FALSE of the code -/
@@ -235,26 +267,34 @@ def toyEnc (n : List Byte) (s : Nat) : List Byte :=
   ([1, UInt8.ofNat s, UInt8.ofNat n.length] ++ n ++ zeros 512).take 512
 
 def toyEncLong (n : Nat) : List Byte := ([2, UInt8.ofNat n] ++ zeros 512).take 512
+def toyEncPax (n : Nat) : List Byte := ([3, UInt8.ofNat n] ++ zeros 512).take 512
 
-def toyDec (b : List Byte) : Option Hd :=
+def toyDecHdr (b : List Byte) : Option Hd :=
   match b with
-  | t :: s :: l :: rest => if t = 1 then some (.reg (rest.take l.toNat) s.toNat) else if t = 2 then some (.long s.toNat) else none
+  | t :: s :: l :: rest =>
+      if t = 1 then some (.reg (rest.take l.toNat) s.toNat) else if t = 2 then some (.long s.toNat)
+      else if t = 3 then some (.pax s.toNat) else none
   | _ => none
 
-/-- a (non-tar) header codec for names up to 254 bytes and sizes below 256: the laws are satisfiable -/
-def toyCodec : Codec where
+/-- a (non-tar) codec for names up to 254 bytes and sizes below 256, in either writer format: the laws are satisfiable -/
+def toyCodec (pax : Bool) : Codec where
+  pax := pax
   enc := toyEnc
   encLong := toyEncLong
-  dec := toyDec
+  encPax := toyEncPax
+  encRecs := fun rs => match rs with | [(_, v)] => v | _ => []
+  dec := { hdr := toyDecHdr, recs := fun b => [(pathKey, b)] }
   valid := fun n s => n.length ≤ 100 ∧ s < 256
   validLong := fun n => n < 256
+  validPax := fun n => n < 256
   enc_len := by intro n s; simp [toyEnc, List.length_take, zeros_length]
   encLong_len := by intro n; simp [toyEncLong, List.length_take, zeros_length]
+  encPax_len := by intro n; simp [toyEncPax, List.length_take, zeros_length]
   dec_enc := by
     intro n s ⟨hn, hs⟩
     have toNat_ofNat : ∀ k, k < 256 → (UInt8.ofNat k).toNat = k := by
       intro k h; simp [Nat.mod_eq_of_lt h]
-    simp only [toyEnc, List.cons_append, List.nil_append, List.take_succ_cons, toyDec, if_true]
+    simp only [toyEnc, List.cons_append, List.nil_append, List.take_succ_cons, toyDecHdr, if_true]
     rw [toNat_ofNat _ hs, toNat_ofNat _ (by omega), List.take_take]
     have : min n.length 509 = n.length := by omega
     rw [this, List.take_left' rfl]
@@ -263,24 +303,39 @@ def toyCodec : Codec where
     have toNat_ofNat : ∀ k, k < 256 → (UInt8.ofNat k).toNat = k := by
       intro k h; simp [Nat.mod_eq_of_lt h]
     have hz : zeros 512 = 0 :: zeros 511 := rfl
-    simp only [toyEncLong, List.cons_append, List.nil_append, hz, List.take_succ_cons, toyDec]
+    simp only [toyEncLong, List.cons_append, List.nil_append, hz, List.take_succ_cons, toyDecHdr]
     simp [toNat_ofNat _ hn]
+  dec_encPax := by
+    intro n hn
+    have toNat_ofNat : ∀ k, k < 256 → (UInt8.ofNat k).toNat = k := by
+      intro k h; simp [Nat.mod_eq_of_lt h]
+    have hz : zeros 512 = 0 :: zeros 511 := rfl
+    simp only [toyEncPax, List.cons_append, List.nil_append, hz, List.take_succ_cons, toyDecHdr]
+    simp [toNat_ofNat _ hn]
+  dec_encRecs := by intro name; rfl
   enc_nonzero := by intro n s _; simp [toyEnc, List.take_succ_cons]
   encLong_nonzero := by intro n _; simp [toyEncLong, List.take_succ_cons]
+  encPax_nonzero := by intro n _; simp [toyEncPax, List.take_succ_cons]
 
-/-- a short-named member, an empty one and one whose name has 120 bytes (GNU long-name record) -/
-example (p : Nat → Nat → Nat) :
-    readArchive toyCodec.dec { data := writeArchive toyCodec [⟨[97], [1, 2, 3]⟩, ⟨[98], []⟩, ⟨List.replicate 120 99, [7]⟩], policy := p }
-      = .ok [⟨[97], [1, 2, 3]⟩, ⟨[98], []⟩, ⟨List.replicate 120 99, [7]⟩] := by
-  apply read_write_roundtrip toyCodec _ p
+theorem toy_members_valid (pax : Bool) :
+    ∀ m ∈ [(⟨[97], [1, 2, 3]⟩ : Member), ⟨List.replicate 120 99, [7]⟩, ⟨[98], []⟩], MValid (toyCodec pax) m := by
   intro m hm
   simp only [List.mem_cons, List.mem_nil_iff, or_false] at hm
   rcases hm with rfl | rfl | rfl
   · exact ⟨by simp [toyCodec], by simp⟩
-  · exact ⟨by simp [toyCodec], by simp⟩
-  · refine ⟨by simp [toyCodec], fun _ => ⟨by simp [toyCodec], ?_⟩⟩
+  · refine ⟨by simp [toyCodec], fun _ => ⟨fun _ => ⟨by simp [toyCodec], ?_⟩, fun _ => by simp [toyCodec, paxPayload]⟩⟩
     intro b hb
     have := List.eq_of_mem_replicate hb
     subst this; decide
+  · exact ⟨by simp [toyCodec], by simp⟩
+
+/-- a short-named member, one whose name has 120 bytes (GNU long-name record or pax extended header) FOLLOWED by another short-named
+    one: all three come back with their own names, in either format and for every chunking — the extension record applies to its
+    member only -/
+example (pax : Bool) (p : Nat → Nat → Nat) :
+    readArchive (toyCodec pax).dec
+        { data := writeArchive (toyCodec pax) [⟨[97], [1, 2, 3]⟩, ⟨List.replicate 120 99, [7]⟩, ⟨[98], []⟩], policy := p }
+      = .ok [⟨[97], [1, 2, 3]⟩, ⟨List.replicate 120 99, [7]⟩, ⟨[98], []⟩] :=
+  read_write_roundtrip (toyCodec pax) _ p (toy_members_valid pax)
 
 end SFV.C23
